@@ -144,17 +144,30 @@ func inBubble(fn func()) (deadlock bool, msg string) {
 // handlers see the closed done channel, sleepers of <<wait>> see their deadline.
 func drain(bubble bool) {
 	if bubble {
-		synctest.Wait()
-		time.Sleep(100000 * time.Second)
-		synctest.Wait()
+		settle(true)
+		sleepInBubble(100000 * time.Second)
 	}
 }
 
 // settle lets every goroutine of the bubble run until it blocks.
 func settle(bubble bool) {
 	if bubble {
+		settling = true
 		synctest.Wait()
+		settling = false
 	}
+}
+
+// settling is true while the root goroutine of a bubble lets the others run: host callbacks
+// arriving then come from handler goroutines, which are not preemption points of the plan.
+var settling bool
+
+// sleepInBubble advances the fake clock.
+func sleepInBubble(d time.Duration) {
+	settling = true
+	time.Sleep(d)
+	synctest.Wait()
+	settling = false
 }
 
 // ---------- executing a plan against the real runner ----------
@@ -168,7 +181,7 @@ type Trace struct {
 
 type execHooks struct {
 	// afterOp is called after each op with the (possibly nil for non-next ops) response.
-	afterOp func(i int, op *Op, got *Resp, h *Host, tr *Trace) *Violation
+	afterOp  func(i int, op *Op, got *Resp, h *Host, tr *Trace) *Violation
 	beforeOp func(i int, op *Op, h *Host)
 	// stopOn ends the run early
 	stopAfter func(i int, op *Op, got *Resp) bool
@@ -237,8 +250,7 @@ func runOps(h *Host, ops []Op, hk *execHooks, st *Stats) (*Trace, *Violation) {
 			}
 		case "advance":
 			if hk.bubble {
-				time.Sleep(time.Duration(op.Ns))
-				settle(true)
+				sleepInBubble(time.Duration(op.Ns))
 				if st != nil {
 					st.SimNs += op.Ns
 				}
